@@ -626,7 +626,7 @@ def run(ctx):
                 % ((4, 4) if ctx.quick() else (8, 8)))
     ctx.notes.append('generator (numpy global RandomState / toy counter), per-member sift, signal arithmetic and the OS scheduler are oracles; '
                      'distinct blocks holding distinct numbers is stated as the hypothesis of Prop_C08.members_noise_distinct, not proved')
-    ctx.proof()
+    ctx.proof(extra=['props/Prop_Tie_Ensemble.v'])  # translation tie: program regenerated from the source + refinement theorems
     install()
     tdir = os.path.join(ctx.work, 'trace')
     # ---- correspondence: toy mode
